@@ -11,7 +11,7 @@ import (
 
 func init() {
 	// fast, deterministic timing for every harness run
-	swap.VerifSetTiming(200*time.Millisecond, time.Millisecond, time.Hour, true)
+	swap.VerifSetTiming(120*time.Millisecond, time.Millisecond, time.Hour, true)
 }
 
 // runScenario executes the steps in a fresh world and returns it (caller closes).
@@ -20,6 +20,47 @@ func runScenario(cfg WorldCfg, steps []string) (*World, *Ctx, []string) {
 	c := newCtx(w)
 	res := c.Run(steps)
 	return w, c, res
+}
+
+type scnResult struct {
+	sc  scn
+	w   *World
+	ctx *Ctx
+	res []string
+}
+
+// runMany executes scenarios in parallel (each in its own world) and hands the finished worlds to
+// `each` in input order; worlds are closed afterwards.
+func runMany(cfg WorldCfg, scs []scn, each func(r scnResult)) {
+	const workers = 8
+	type job struct {
+		i  int
+		sc scn
+	}
+	results := make([]chan scnResult, len(scs))
+	for i := range results {
+		results[i] = make(chan scnResult, 1)
+	}
+	jobs := make(chan job)
+	for k := 0; k < workers; k++ {
+		go func() {
+			for j := range jobs {
+				w, c, res := runScenario(cfg, j.sc.steps)
+				results[j.i] <- scnResult{j.sc, w, c, res}
+			}
+		}()
+	}
+	go func() {
+		for i, sc := range scs {
+			jobs <- job{i, sc}
+		}
+		close(jobs)
+	}()
+	for i := range scs {
+		r := <-results[i]
+		each(r)
+		r.w.close()
+	}
 }
 
 func cmdScn(args []string) {
